@@ -211,6 +211,12 @@ def _random_gen_conv(rng):
         sp['map'] = rng.random() < 0.5
     else:
         sp['bound'] = rng.random() < 0.6
+        if rng.random() < 0.35:
+            # a converter FUNCTION may answer with a float (any Real): dyadic factors and
+            # offsets keep the float exact, so the expected amounts stay the same (seeded C12-i)
+            for e in sp['e']:
+                e[2], e[3] = rng.choice(['2', '1/4', '-8', '1/2']), rng.choice(['0', '32', '-1/2'])
+            sp['float'] = True
     return sp
 
 
@@ -416,9 +422,14 @@ def _setup(case):
             else:
                 tab = {(f, t): (k, o) for f, t, k, o in es}
 
-                def fn(q, u, tab=tab):
+                def fn(q, u, tab=tab, as_float=bool(sp.get('float'))):
                     e = tab.get((q.unit, u))
-                    return None if e is None else e[0] * q.amount + e[1]
+                    if e is None:
+                        return None
+                    v = e[0] * q.amount + e[1]
+                    if as_float and F(float(v)) == F(v):
+                        return float(v)         # a float whenever it is exact
+                    return v
                 if sp.get('bound'):
                     # a bound method: every `holder.convert` is a NEW object that is equal
                     # to, but not identical with, the one registered before (seeded C12-f/g)
